@@ -358,3 +358,22 @@ def emit_spread_fun(tree, spec, fn) -> str:
         leg_params = " ".join(f"({a} : {ty})" for a, ty in fn["args"] if a not in ("spread", "pv"))
         out += f"\nDefinition {fn['coq']}_{n} {leg_params} : {fn['ret']} :=\n  {t}.\n"
     return out
+
+
+def emit_threshold_fun(tree, spec, fn) -> str:
+    """emitter for the objective of CFLevyModel.implied_cds_threshold:  fun(threshold) = cds_spread(threshold, R) - target  and its
+    brentq bracket (-10, -h0); the root search itself is not modelled.  Every statement of the method is matched textually."""
+    node = core.find_function(tree, fn["py"])
+    args = [a.arg for a in node.args.args if a.arg != "self"]
+    if args != ["cds_spread", "recovery_rate", "h0"]:
+        raise Unsupported(f"{fn['py']}: signature changed: {args}")
+    stmts = [s for s in node.body if not (isinstance(s, ast.Expr) and isinstance(s.value, ast.Constant))]
+    texts = [src(s) for s in stmts]
+    want = ["if h0 <= 0:\n    raise ValueError('expected strictly positive h0')",
+            "def fun(threshold):\n    return self.cds_spread(level_a=threshold, recovery_rate=recovery_rate) - cds_spread",
+            "a, b = (-10, -h0)", "res = scipy.optimize.brentq(f=fun, a=a, b=b)", "return res"]
+    if texts != want:
+        raise Unsupported(f"{fn['py']}: body changed: {texts}")
+    c = fn["coq"]
+    return (f"Definition {c} (target : R) (recovery_rate : R) (threshold : A) : R :=\n  (Rminus (cds_spread threshold recovery_rate) target).\n\n"
+            f"Definition {c}_bracket (h0 : R) : R * R := (IZR (-10), Ropp h0).\n")
